@@ -7,7 +7,7 @@
    gadget_err = gadget_noise - gadget_trunc (explicit), gadget_noise = sum_{row,ci} digit (x) e, gadget_trunc = contribution of the key limbs
    that the product of digit di drops (zero for dsize <= 2), gadget_int = the multiple of 2^P. *)
 From PV Require Import Base.MachineInt Model.Znx Model.Limbs Model.Flat Model.Ring Model.Poly Model.DftAbs Model.Gadget Model.GadgetOracle Model.C03Run.
-From PV Require Import Model.GadgetSpec Proofs.C07Dft Proofs.C07Ring Proofs.GadgetDecomp Proofs.GadgetPhase Proofs.GadgetBound Proofs.C03Phase.
+From PV Require Import Model.GadgetSpec Proofs.C07Dft Proofs.C07Ring Proofs.GadgetDecomp Proofs.GadgetPhase Proofs.GadgetBound Proofs.C03Phase Proofs.C04Phase Model.GadgetEnc Proofs.GadgetEnc Proofs.GadgetNorm.
 Open Scope Z_scope.
 
 (* (1) limbs grouped by (step = dsize, offset = dsize-di-1) recombine to the value: pure index arithmetic, all shapes *)
@@ -72,22 +72,38 @@ Theorem C03_dft_select_digit :
 Proof. exact dft_select_digit. Qed.
 Print Assumptions C03_dft_select_digit.
 
-(* (2) the model IS the functional form (zero accumulator of msize limbs, every dsize >= 1, both clamp modes) *)
+(* (2) the repaired entry point zeroes the accumulator: key-switch mode for EVERY prior content, external-product mode for every prior content of cols_out columns of msize limbs *)
+Theorem C03_acc_start_zero :
+  forall (n cols_out msize : nat) (clamp : bool) (res0 : cols_t),
+    acc_shape cols_out msize clamp res0 -> acc_start n cols_out msize msize clamp res0 = zcols n cols_out msize.
+Proof. exact acc_start_zero. Qed.
+Print Assumptions C03_acc_start_zero.
+
+Theorem C03_gadget_product_is_from_zero :
+  forall (n cols_out msize : nat) (res0 a : cols_t) (a_size dsize dnum : nat) (clamp : bool) (m : pmat),
+    acc_shape cols_out msize clamp res0 ->
+    gadget_product n cols_out msize res0 a a_size dsize dnum msize clamp m =
+    gadget_product_from n cols_out msize (zcols n cols_out msize) a a_size dsize dnum msize clamp m.
+Proof. exact gadget_product_is_from_zero. Qed.
+Print Assumptions C03_gadget_product_is_from_zero.
+
+(* (2) the model IS the functional form, whatever the accumulator held; every dsize >= 1, both modes *)
 Theorem C03_gadget_product_spec :
-  forall (n cin cols_out msize a_size dsize dnum : nat) (clamp : bool) (a : cols_t) (m : pmat),
+  forall (n cin cols_out msize a_size dsize dnum : nat) (clamp : bool) (a : cols_t) (m : pmat) (res0 : cols_t),
     wf_cols n cin a_size a ->
     (1 <= dsize)%nat ->
     (dsize - 2 <= msize)%nat ->
+    acc_shape cols_out msize clamp res0 ->
     exists res : cols_t,
-      gadget_product n cols_out msize (zcols n cols_out msize) a a_size dsize dnum msize clamp m = Some res /\
+      gadget_product n cols_out msize res0 a a_size dsize dnum msize clamp m = Some res /\
       wf_cols n cols_out msize res /\
       (forall co j : nat,
        (co < cols_out)%nat -> (j < msize)%nat -> lim (col res co) j = gp_spec n cin cols_out msize a_size dsize dnum clamp (acol n a) m co j).
 Proof. exact gadget_product_spec. Qed.
 Print Assumptions C03_gadget_product_spec.
 
-(* (2) digit-grouped branch from any accumulator res0 of R >= msize limbs: limbs j >= sz_r(0) keep their prior content *)
-Theorem C03_gadget_product_spec_grouped :
+(* (2) the digit loop from a given accumulator content res0 of R >= msize limbs (what the code did before it zeroed the accumulator): limbs j >= sz_r(0) keep their prior content *)
+Theorem C03_gadget_product_from_spec_grouped :
   forall (n cin cols_out msize a_size dsize dnum : nat) (clamp : bool) (a : cols_t) (m : pmat),
     wf_cols n cin a_size a ->
     forall (R : nat) (res0 : cols_t),
@@ -96,7 +112,7 @@ Theorem C03_gadget_product_spec_grouped :
     (msize <= R)%nat ->
     (2 <= dsize)%nat ->
     exists res : cols_t,
-      gadget_product n cols_out R res0 a a_size dsize dnum msize clamp m = Some res /\
+      gadget_product_from n cols_out R res0 a a_size dsize dnum msize clamp m = Some res /\
       length res = cols_out /\
       (forall co : nat,
        (co < cols_out)%nat ->
@@ -106,23 +122,23 @@ Theorem C03_gadget_product_spec_grouped :
         lim (col res co) j =
         padd (if (j <? sz_r msize dsize 0)%nat then pzero n else lim (col res0 co) j)
           (gp_spec n cin cols_out msize a_size dsize dnum clamp (acol n a) m co j))).
-Proof. exact gadget_product_spec_grouped. Qed.
-Print Assumptions C03_gadget_product_spec_grouped.
+Proof. exact gadget_product_from_spec_grouped. Qed.
+Print Assumptions C03_gadget_product_from_spec_grouped.
 
 (* (2) dsize = 1: one vmp, res0 ignored *)
-Theorem C03_gadget_product_spec_flat :
+Theorem C03_gadget_product_from_spec_flat :
   forall (n cin cols_out msize a_size dnum : nat) (clamp : bool) (a : cols_t) (m : pmat),
     wf_cols n cin a_size a ->
     forall (R : nat) (res0 : cols_t),
     exists res : cols_t,
-      gadget_product n cols_out R res0 a a_size 1 dnum msize clamp m = Some res /\
+      gadget_product_from n cols_out R res0 a a_size 1 dnum msize clamp m = Some res /\
       length res = cols_out /\
       (forall co : nat,
        (co < cols_out)%nat ->
        length (col res co) = R /\
        (forall j : nat, (j < R)%nat -> lim (col res co) j = gp_flat n cin cols_out msize a_size dnum (acol n a) m R co j)).
-Proof. exact gadget_product_spec_flat. Qed.
-Print Assumptions C03_gadget_product_spec_flat.
+Proof. exact gadget_product_from_spec_flat. Qed.
+Print Assumptions C03_gadget_product_from_spec_flat.
 
 (* (3a) exact phase of the functional form under any secret family *)
 Theorem C03_gadget_phase_exact :
@@ -168,9 +184,10 @@ Theorem C03_gadget_phase_rows :
 Proof. exact gadget_phase_rows_in. Qed.
 Print Assumptions C03_gadget_phase_rows.
 
-(* (3b) the product part of the key switch (gglwe_product_dft) on the model *)
+(* (3b) the product part of the key switch (gglwe_product_dft) on the model, any prior accumulator content res0 *)
 Theorem C03_keyswitch_phase :
-  forall (P b : Z) (n rin cols_out msize a_size dsize dnum : nat) (a : cols_t) (K : pmat) (Sk s_in : nat -> list Z) (e I : nat -> nat -> list Z),
+  forall (P b : Z) (n rin cols_out msize a_size dsize dnum : nat) (a res0 : cols_t) (K : pmat) (Sk s_in : nat -> list Z)
+      (e I : nat -> nat -> list Z),
     wf_cols n rin a_size a ->
     wf_pmat_in n (dnum * rin) (msize * cols_out) K ->
     (1 <= dsize)%nat ->
@@ -184,7 +201,7 @@ Theorem C03_keyswitch_phase :
     Z.of_nat dnum * Z.of_nat dsize * b <= P ->
     key_rows_ok P b n rin cols_out msize dsize dnum K Sk s_in e I ->
     exists res : cols_t,
-      gadget_product n cols_out msize (zcols n cols_out msize) a a_size dsize dnum msize true K = Some res /\
+      gadget_product n cols_out msize res0 a a_size dsize dnum msize true K = Some res /\
       wf_cols n cols_out msize res /\
       phase_f P b n cols_out msize (limbs_of res) Sk =
       padd
@@ -196,7 +213,7 @@ Print Assumptions C03_keyswitch_phase.
 
 (* (3b) glwe_keyswitch_internal: + min(msize, a_size) limbs of the body *)
 Theorem C03_keyswitch_internal_phase :
-  forall (P b : Z) (n rin cols_out msize a_size dsize dnum : nat) (ct : cols_t) (K : pmat) (Sk s_in : nat -> list Z)
+  forall (P b : Z) (n rin cols_out msize a_size dsize dnum : nat) (ct res0 : cols_t) (K : pmat) (Sk s_in : nat -> list Z)
       (e I : nat -> nat -> list Z),
     wf_cols n (S rin) a_size ct ->
     wf_pmat_in n (dnum * rin) (msize * cols_out) K ->
@@ -214,7 +231,7 @@ Theorem C03_keyswitch_internal_phase :
     Z.of_nat dnum * Z.of_nat dsize * b <= P ->
     key_rows_ok P b n rin cols_out msize dsize dnum K Sk s_in e I ->
     exists ks : cols_t,
-      keyswitch_internal n cols_out msize (zcols n cols_out msize) ct a_size dsize dnum msize K = Some ks /\
+      keyswitch_internal n cols_out msize res0 ct a_size dsize dnum msize K = Some ks /\
       wf_cols n cols_out msize ks /\
       phase_f P b n cols_out msize (limbs_of ks) Sk =
       padd
@@ -233,7 +250,7 @@ Theorem C03_automorphism_phase :
     (forall a b : list Z, length a = n -> length b = n -> sg (padd a b) = padd (sg a) (sg b)) ->
     (forall a b : list Z, length a = n -> length b = n -> sg (pmul a b) = pmul (sg a) (sg b)) ->
     (forall (c : Z) (a : list Z), length a = n -> sg (pscale c a) = pscale c (sg a)) ->
-    forall (P b : Z) (rin cols_out msize a_size dsize dnum : nat) (ct : cols_t) (K : pmat) (Sk St s_in : nat -> list Z)
+    forall (P b : Z) (rin cols_out msize a_size dsize dnum : nat) (ct res0 : cols_t) (K : pmat) (Sk St s_in : nat -> list Z)
       (e I : nat -> nat -> list Z),
     wf_cols n (S rin) a_size ct ->
     wf_pmat_in n (dnum * rin) (msize * cols_out) K ->
@@ -252,7 +269,7 @@ Theorem C03_automorphism_phase :
     Z.of_nat dnum * Z.of_nat dsize * b <= P ->
     key_rows_ok P b n rin cols_out msize dsize dnum K Sk s_in e I ->
     exists ks : cols_t,
-      keyswitch_internal n cols_out msize (zcols n cols_out msize) ct a_size dsize dnum msize K = Some ks /\
+      keyswitch_internal n cols_out msize res0 ct a_size dsize dnum msize K = Some ks /\
       wf_cols n cols_out msize ks /\
       phase_f P b n cols_out msize (limbs_of (map (map sg) ks)) St =
       padd
@@ -347,7 +364,7 @@ Print Assumptions C03_phase_val_phase_f.
 
 (* (3b) glwe_keyswitch_internal with Gadget.phase_val on the left *)
 Theorem C03_keyswitch_internal_phase_val :
-  forall (P b : Z) (n rin msize a_size dsize dnum : nat) (ct : cols_t) (K : pmat) (sk_out : list (list Z)) (s_in : nat -> list Z)
+  forall (P b : Z) (n rin msize a_size dsize dnum : nat) (ct res0 : cols_t) (K : pmat) (sk_out : list (list Z)) (s_in : nat -> list Z)
       (e I : nat -> nat -> list Z),
     wf_cols n (S rin) a_size ct ->
     wf_pmat_in n (dnum * rin) (msize * S (length sk_out)) K ->
@@ -363,7 +380,7 @@ Theorem C03_keyswitch_internal_phase_val :
     Z.of_nat dnum * Z.of_nat dsize * b <= P ->
     key_rows_ok P b n rin (S (length sk_out)) msize dsize dnum K (sk_ext n sk_out) s_in e I ->
     exists ks : cols_t,
-      keyswitch_internal n (S (length sk_out)) msize (zcols n (S (length sk_out)) msize) ct a_size dsize dnum msize K = Some ks /\
+      keyswitch_internal n (S (length sk_out)) msize res0 ct a_size dsize dnum msize K = Some ks /\
       phase_val P b n sk_out ks =
       padd
         (padd
@@ -373,6 +390,152 @@ Theorem C03_keyswitch_internal_phase_val :
         (pscale (2 ^ P) (gadget_int b n rin (S (length sk_out)) msize dsize dnum (acol n (tl ct)) K (sk_ext n sk_out) I)).
 Proof. exact C03_keyswitch_internal_phase_val_lemma. Qed.
 Print Assumptions C03_keyswitch_internal_phase_val.
+
+(* (5) key-row lemma for the modelled encryption (Model/GadgetEnc.v): the value-level body equation of gglwe_encrypt_sk implies key_rows_ok, same e, I = J *)
+Theorem C03_key_rows_of_enc_body :
+  forall (P b : Z) (n cin rank msize dsize dnum : nat) (K : pmat) (Sk src : nat -> list Z) (e J : nat -> nat -> list Z),
+    (1 <= n)%nat ->
+    wf_pmat_in n (dnum * cin) (msize * S rank) K ->
+    (forall co : nat, length (Sk co) = n) ->
+    Sk 0%nat = pone n ->
+    (forall ci : nat, length (src ci) = n) ->
+    (forall row ci : nat, length (e row ci) = n) ->
+    (forall row ci : nat, length (J row ci) = n) ->
+    enc_body_ok P b n cin rank msize dsize dnum K Sk src e J -> key_rows_ok P b n cin (S rank) msize dsize dnum K Sk src e J.
+Proof. exact key_rows_of_enc_body. Qed.
+Print Assumptions C03_key_rows_of_enc_body.
+
+(* (5) the key-switch phase theorem with the body equation of the key encryption instead of the key-row hypothesis *)
+Theorem C03_keyswitch_phase_enc :
+  forall (P b : Z) (n rin msize a_size dsize dnum : nat) (ct res0 : cols_t) (K : pmat) (sk_out : list (list Z)) (s_in : nat -> list Z)
+      (e J : nat -> nat -> list Z),
+    wf_cols n (S rin) a_size ct ->
+    wf_pmat_in n (dnum * rin) (msize * S (length sk_out)) K ->
+    (1 <= n)%nat ->
+    (1 <= dsize)%nat ->
+    (dsize - 2 <= msize)%nat ->
+    (forall s : list Z, In s sk_out -> length s = n) ->
+    (forall ci : nat, length (s_in ci) = n) ->
+    (forall row ci : nat, length (e row ci) = n) ->
+    (forall row ci : nat, length (J row ci) = n) ->
+    0 <= b ->
+    Z.of_nat msize * b <= P ->
+    Z.of_nat dnum * Z.of_nat dsize * b <= P ->
+    enc_body_ok P b n rin (length sk_out) msize dsize dnum K (sk_ext n sk_out) s_in e J ->
+    exists ks : cols_t,
+      keyswitch_internal n (S (length sk_out)) msize res0 ct a_size dsize dnum msize K = Some ks /\
+      phase_val P b n sk_out ks =
+      padd
+        (padd
+           (padd (pval P b n (acol n ct 0) (Nat.min msize a_size))
+              (psumf n (fun ci : nat => pmul (pval_used P b n a_size dsize dnum (acol n (tl ct)) ci) (s_in ci)) rin))
+           (gadget_err P b n rin (S (length sk_out)) msize dsize dnum (acol n (tl ct)) K (sk_ext n sk_out) e))
+        (pscale (2 ^ P) (gadget_int b n rin (S (length sk_out)) msize dsize dnum (acol n (tl ct)) K (sk_ext n sk_out) J)).
+Proof. exact C03_keyswitch_phase_enc_lemma. Qed.
+Print Assumptions C03_keyswitch_phase_enc.
+
+(* (6) one column normalisation, FFT64 family, same radix, from C08 normalize_inter_value: out = big + r + 2^P I, |r| <= one unit of the last limb *)
+Theorem C03_big_normalize_value_fft64 :
+  forall (b : Z) (n rsize : nat) (a : plimbs) (P : Z),
+    1 <= b <= 62 ->
+    (forall j : nat, (j < length a)%nat -> length (lim a j) = n) ->
+    (forall j k : nat, Z.abs (nth k (lim a j) 0) <= 2 ^ 62) ->
+    (Z.of_nat rsize + Z.of_nat (length a)) * b <= P -> normalize_value_ok 64 P n b b rsize a.
+Proof. exact big_normalize_value_fft64. Qed.
+Print Assumptions C03_big_normalize_value_fft64.
+
+(* (6) normalising every column: phase(out) = phase(big) + R + 2^P I, |R| <= (1 + rank n S) units of the last limb *)
+Theorem C03_normalize_cols_phase :
+  forall (wb P : Z) (n : nat) (rb kb : Z) (res_size msize : nat) (sk : list (list Z)) (Sb : Z) (big : cols_t),
+    (1 <= n)%nat ->
+    wf_cols n (S (length sk)) msize big ->
+    (forall s : list Z, In s sk -> length s = n) ->
+    (forall s : list Z, In s sk -> pnorm s <= Sb) ->
+    (forall co : nat, (co < S (length sk))%nat -> normalize_value_ok wb P n rb kb res_size (col big co)) ->
+    exists (res : list plimbs) (R I : list Z),
+      sequence (map (big_normalize wb n rb kb res_size) big) = Some res /\
+      wf_cols n (S (length sk)) res_size res /\
+      length R = n /\
+      length I = n /\
+      phase_val P rb n sk res = padd (padd (phase_val P kb n sk big) R) (pscale (2 ^ P) I) /\
+      pnorm R <= (1 + Z.of_nat (length sk) * Z.of_nat n * Sb) * 2 ^ (P - Z.of_nat res_size * rb).
+Proof. exact normalize_cols_phase. Qed.
+Print Assumptions C03_normalize_cols_phase.
+
+(* (6) Gadget.glwe_keyswitch (input radix = key radix): phase_out = phase_in + E + R + 2^P I; per-column normalize_value_ok is a hypothesis *)
+Theorem C03_glwe_keyswitch_phase_final :
+  forall (be P b rb : Z) (n rin msize a_size res_size dsize dnum : nat) (ct : cols_t) (K : pmat) (sk_out : list (list Z))
+      (s_in : nat -> list Z) (e I : nat -> nat -> list Z) (Sb : Z),
+    wf_cols n (S rin) a_size ct ->
+    wf_pmat_in n (dnum * rin) (msize * S (length sk_out)) K ->
+    (1 <= n)%nat ->
+    (1 <= dsize)%nat ->
+    (dsize - 2 <= msize)%nat ->
+    (forall s : list Z, In s sk_out -> length s = n) ->
+    (forall s : list Z, In s sk_out -> pnorm s <= Sb) ->
+    (forall ci : nat, length (s_in ci) = n) ->
+    (forall row ci : nat, length (e row ci) = n) ->
+    (forall row ci : nat, length (I row ci) = n) ->
+    0 <= b ->
+    Z.of_nat msize * b <= P ->
+    Z.of_nat dnum * Z.of_nat dsize * b <= P ->
+    key_rows_ok P b n rin (S (length sk_out)) msize dsize dnum K (sk_ext n sk_out) s_in e I ->
+    (forall big : cols_t,
+     keyswitch_internal n (S (length sk_out)) msize (zcols n (S (length sk_out)) msize) ct a_size dsize dnum msize K = Some big ->
+     forall co : nat, (co < S (length sk_out))%nat -> normalize_value_ok (wbig be) P n rb b res_size (col big co)) ->
+    exists (res : cols_t) (R Itot : list Z),
+      glwe_keyswitch be n b b rb (length sk_out) a_size res_size dsize dnum msize ct K = Some res /\
+      wf_cols n (S (length sk_out)) res_size res /\
+      length R = n /\
+      length Itot = n /\
+      phase_val P rb n sk_out res =
+      padd
+        (padd
+           (padd
+              (padd (pval P b n (acol n ct 0) (Nat.min msize a_size))
+                 (psumf n (fun ci : nat => pmul (pval_used P b n a_size dsize dnum (acol n (tl ct)) ci) (s_in ci)) rin))
+              (gadget_err P b n rin (S (length sk_out)) msize dsize dnum (acol n (tl ct)) K (sk_ext n sk_out) e)) R) (pscale (2 ^ P) Itot) /\
+      pnorm R <= (1 + Z.of_nat (length sk_out) * Z.of_nat n * Sb) * 2 ^ (P - Z.of_nat res_size * rb).
+Proof. exact C03_glwe_keyswitch_phase_final_lemma. Qed.
+Print Assumptions C03_glwe_keyswitch_phase_final.
+
+(* (6) ... FFT64 family, one radix: the normalisation hypothesis is discharged by C08; remaining hypothesis = |big coefficient| <= 2^62 *)
+Theorem C03_glwe_keyswitch_phase_final_fft64 :
+  forall (be P b : Z) (n rin msize a_size res_size dsize dnum : nat) (ct : cols_t) (K : pmat) (sk_out : list (list Z))
+      (s_in : nat -> list Z) (e I : nat -> nat -> list Z) (Sb : Z),
+    be <= 2 ->
+    wf_cols n (S rin) a_size ct ->
+    wf_pmat_in n (dnum * rin) (msize * S (length sk_out)) K ->
+    (1 <= n)%nat ->
+    (1 <= dsize)%nat ->
+    (dsize - 2 <= msize)%nat ->
+    (forall s : list Z, In s sk_out -> length s = n) ->
+    (forall s : list Z, In s sk_out -> pnorm s <= Sb) ->
+    (forall ci : nat, length (s_in ci) = n) ->
+    (forall row ci : nat, length (e row ci) = n) ->
+    (forall row ci : nat, length (I row ci) = n) ->
+    1 <= b <= 62 ->
+    (Z.of_nat res_size + Z.of_nat msize) * b <= P ->
+    Z.of_nat dnum * Z.of_nat dsize * b <= P ->
+    key_rows_ok P b n rin (S (length sk_out)) msize dsize dnum K (sk_ext n sk_out) s_in e I ->
+    (forall big : cols_t,
+     keyswitch_internal n (S (length sk_out)) msize (zcols n (S (length sk_out)) msize) ct a_size dsize dnum msize K = Some big ->
+     forall co j k : nat, Z.abs (nth k (lim (col big co) j) 0) <= 2 ^ 62) ->
+    exists (res : cols_t) (R Itot : list Z),
+      glwe_keyswitch be n b b b (length sk_out) a_size res_size dsize dnum msize ct K = Some res /\
+      wf_cols n (S (length sk_out)) res_size res /\
+      length R = n /\
+      length Itot = n /\
+      phase_val P b n sk_out res =
+      padd
+        (padd
+           (padd
+              (padd (pval P b n (acol n ct 0) (Nat.min msize a_size))
+                 (psumf n (fun ci : nat => pmul (pval_used P b n a_size dsize dnum (acol n (tl ct)) ci) (s_in ci)) rin))
+              (gadget_err P b n rin (S (length sk_out)) msize dsize dnum (acol n (tl ct)) K (sk_ext n sk_out) e)) R) (pscale (2 ^ P) Itot) /\
+      pnorm R <= (1 + Z.of_nat (length sk_out) * Z.of_nat n * Sb) * 2 ^ (P - Z.of_nat res_size * b).
+Proof. exact C03_glwe_keyswitch_phase_final_fft64_lemma. Qed.
+Print Assumptions C03_glwe_keyswitch_phase_final_fft64.
 
 (* ---- the hypotheses are satisfiable: a concrete small instance (definitions ex*_ in the Proofs file), and the model run on it ---- *)
 Example C03_hypotheses_satisfiable :
@@ -391,3 +554,6 @@ Example C03_instance_runs :
                  (gadget_err 8 4 2 1 2 2 2 1 (acol 2 (tl ex3_ct)) ex3_K (sk_ext 2 ex3_sk) ex3_zero))
            (pscale (2 ^ 8) (gadget_int 4 2 1 2 2 2 1 (acol 2 (tl ex3_ct)) ex3_K (sk_ext 2 ex3_sk) ex3_zero)).
 Proof. exact C03_instance_runs_lemma. Qed.
+
+Example C03_enc_body_satisfiable : enc_body_ok 8 4 2 1 1 2 2 1 ex3_K (sk_ext 2 ex3_sk) ex3_sin ex3_zero ex3_zero.
+Proof. exact enc_body_satisfiable_lemma. Qed.
